@@ -10,6 +10,13 @@ impl SrtlaConnection {
     pub fn register_packet(&mut self, seq: i32, send_time_ms: u64) {
         self.packet_log.insert(seq, send_time_ms);
         self.in_flight_packets = self.packet_log.len() as i32;
+        // A number at or below the cumulative-ACK high-water mark (an SRT
+        // retransmission, or a send that raced an ACK) must still be retired by
+        // the next cumulative ACK: pull the mark back below it, otherwise
+        // `handle_srt_ack` skips or range-removes past it and the entry leaks.
+        if seq <= self.highest_acked_seq {
+            self.highest_acked_seq = seq.saturating_sub(1);
+        }
     }
 
     /// Handle SRT cumulative ACK - clears all packets with seq <= ack.
